@@ -64,6 +64,9 @@ Ok(e) ==
       \* query point on the segment both are (nearly) zero
       [] e.op = "seg_distance_f" -> /\ e.obs[1] >= 0 /\ e.obs[2] >= 0 /\ Abs(e.obs[1] - e.obs[2]) <= 8
                                     /\ (e.on = 1 => e.obs[1] <= 8)
+      \* floats (plain integers, distance / exact distance * 2^20): a point just outside the box is at its true distance, however
+      \* small that is (a "negligible length" shortcut would return 0)
+      [] e.op = "box_distance_f" -> e.obs - 1048576 \in -64 .. 64
       [] e.op = "disk_box" -> e.obs = [min |-> [a \in 1 .. Len(e.c) |-> e.c[a] - e.r], max |-> [a \in 1 .. Len(e.c) |-> e.c[a] + e.r]]
       [] e.op = "disk_diameter" -> e.obs = 2 * e.r
       \* circumference, area, surface, volume on floats, scaled by 1000: pi = 3.14159265...
